@@ -26,7 +26,7 @@ fn gen(t: &mut Tape, tier: Tier) -> (DiffCase, Cfg, bool) {
         let k = *t.pick(&[SK::Modified, SK::Modified, SK::Modified, SK::Added, SK::Deleted, SK::RenamedChanged, SK::ModeChanged]);
         items.push(Item::Section(gen_section_of_kind(t, &o, k)));
     }
-    let case = DiffCase { items, final_newline: true };
+    let mut case = DiffCase { items, final_newline: true };
     let sbs = t.chance(2, 5);
     let mut co = CfgOpts::unified();
     co.side_by_side = Some(sbs);
@@ -61,6 +61,29 @@ fn gen(t: &mut Tape, tier: Tier) -> (DiffCase, Cfg, bool) {
             0 => cfg.unset("width"),
             1 => cfg.set("width", &t.range(40, 120).to_string()),
             _ => cfg.set("width", &t.range(121, 220).to_string()),
+        }
+    }
+    // git's diff.suppressBlankEmpty: an empty unchanged line is written without its leading blank.
+    // It is still a line of both files (listed finding KF-C05-1: delta does not count it), so it
+    // is generated rarely; drawn last so that the layout of everything above is stable.
+    let mut extra = t.fork(3);
+    if extra.chance(1, 40) {
+        let mut ctx_lines: Vec<&mut crate::gen::diff::HLine> = Vec::new();
+        for it in case.items.iter_mut() {
+            if let Item::Section(sec) = it {
+                for h in sec.hunks.iter_mut() {
+                    for l in h.lines.iter_mut() {
+                        if l.kind == LK::Ctx && !l.no_newline_after {
+                            ctx_lines.push(l);
+                        }
+                    }
+                }
+            }
+        }
+        if !ctx_lines.is_empty() {
+            let i = extra.below(ctx_lines.len());
+            ctx_lines[i].text.clear();
+            ctx_lines[i].prefix.clear();
         }
     }
     // hunk-header with file/line-number more often
@@ -314,6 +337,9 @@ impl Prop for C05 {
             Err(mut f) => {
                 f.detail = json!({"case": exec::case_json(&cfg, &input), "output_printable": exec::printable(&out[..out.len().min(8000)])});
                 f.traits = crate::props::c03::failure_traits(&cfg, &input);
+                if case.sections().iter().any(|s| s.hunks.iter().any(|h| h.lines.iter().any(|l| l.kind == LK::Ctx && l.prefix.is_empty() && l.text.is_empty()))) {
+                    f.traits.push("blank-context-line-without-marker".to_string());
+                }
                 Verdict::Fail(f)
             }
         }
